@@ -228,10 +228,10 @@ def cases(draw):
 
 def base_cases():
     return sc.scenarios(
-        kinds=("cont0", "finite"),
+        kinds=("cont0", "cont0", "finite"),
         scheduler="sorted",
         energies=(0.003, 0.02, 0.3, 1.5, 6.0, 25.0),
-        limits=(8.0, 12.0, 20.0, 33.0, 50.0, 100.0),
+        limits=(8.0, 12.0, 20.0, 33.0, 50.0, 100.0, 150.0),
         batteries=sc.battery_specs(noise=False),
         window=4,
     )
